@@ -36,7 +36,11 @@ ASSUMPTIONS = [
 ]
 
 MUTATORS = {"append", "append_all", "insert_at", "delete_at", "remove", "put"}
-MUTATING_FORMS = {"A[B] = C", "A[B] += C", "A->a = B"}
+MUTATING_FORMS = {"A[B] = C", "A[B] += C", "A->a = B",
+                  # loops whose body applies a documented mutator to A
+                  "for v in values A do A->zz = v end",
+                  "for k in keys A do remove(A, k) end",
+                  "for x in A do append(A, B); if length(A) > 6 then break end"}
 
 # Functions and forms that may hand back one of their argument objects:
 # selectors (the result is *chosen* among the arguments), conversions of a
